@@ -359,6 +359,13 @@ func rewriteFile(fset *token.FileSet, f *ast.File, src []byte, info *types.Info,
 	}
 	ordinal := map[string]int{}
 	n := 0
+	labeled := map[ast.Stmt]bool{}
+	ast.Inspect(f, func(nd ast.Node) bool {
+		if l, ok := nd.(*ast.LabeledStmt); ok {
+			labeled[l.Stmt] = true
+		}
+		return true
+	})
 
 	ast.Inspect(f, func(nd ast.Node) bool {
 		switch x := nd.(type) {
@@ -458,8 +465,9 @@ func rewriteFile(fset *token.FileSet, f *ast.File, src []byte, info *types.Info,
 			if !orderedKey(mt.Key()) {
 				die("%s: R3 cannot order map key type %s", fset.Position(x.Pos()), mt.Key())
 			}
-			if !pure(x.X) {
-				die("%s: R3 range expression is not side-effect free: %s", fset.Position(x.Pos()), text(x.X))
+			impure := !pure(x.X)
+			if impure && labeled[x] {
+				die("%s: R3 range expression is not side-effect free and the loop is labelled: %s", fset.Position(x.Pos()), text(x.X))
 			}
 			fn := funcOf(x.Pos())
 			ordinal[fn]++
@@ -472,6 +480,14 @@ func rewriteFile(fset *token.FileSet, f *ast.File, src []byte, info *types.Info,
 			id := fmt.Sprintf("%d_%d", fset.Position(x.Pos()).Line, n)
 			vk, vv, vok := "vk"+id, "vv"+id, "vok"+id
 			mx := text(x.X)
+			prefix := ""
+			if impure {
+				// evaluate the expression once, in a block of its own: { vm := EXPR; for ... { ... } }
+				vm := "vm" + id
+				prefix = fmt.Sprintf("{ %s := %s; ", vm, mx)
+				mx = vm
+				edits = append(edits, edit{off(x.Body.Rbrace) + 1, off(x.Body.Rbrace) + 1, " }"})
+			}
 			tok := x.Tok.String()
 			if x.Tok == token.ILLEGAL {
 				tok = ":="
@@ -486,6 +502,7 @@ func rewriteFile(fset *token.FileSet, f *ast.File, src []byte, info *types.Info,
 				return text(e), true
 			}
 			var b strings.Builder
+			b.WriteString(prefix)
 			fmt.Fprintf(&b, "for _, %s := range simhook.Keys(%s, %d) { ", vk, mx, site)
 			vname, vnamed := named(x.Value)
 			if vnamed {
